@@ -148,6 +148,50 @@ def expr_queries():
     return qs
 
 
+# different terms with one lexical form (and true repetitions of one term) in a group
+SAME_LEX = [[I("n1"), I("q"), S("1")], [I("n1"), I("q"), N(1)], [I("n1"), I("q"), {"k": "lit", "v": "1", "lang": "en"}], [I("n1"), I("p"), N(1)], [I("n2"), I("q"), S("chat")],
+            [I("n2"), I("q"), {"k": "lit", "v": "chat", "lang": "en"}], [I("n2"), I("q"), {"k": "lit", "v": "chat", "lang": "fr"}], [I("n2"), I("p"), S("chat")], [I("n3"), I("q"), S("x")], [I("n3"), I("p"), S("x")]]
+
+
+def bnode_pattern_queries():
+    """blank nodes in the pattern (variables that are never projected) under DISTINCT / REDUCED / LIMIT / COUNT: several matches per projected row"""
+    H = lambda n: {"k": "var", "v": n, "hidden": True}
+    qs = []
+    pats = [bgp((V("s"), I("p"), H("b1"))), bgp((V("s"), V("pp"), H("b1"))), bgp((H("b1"), I("p"), V("v"))), bgp((V("s"), I("p"), H("b1")), (V("s"), I("q"), H("b2"))),
+            bgp((H("b1"), V("pp"), H("b2"))), bgp((V("s"), I("p"), H("b1")), (H("b1"), I("q"), V("w")))]
+    for pt in pats:
+        w = grp(pt)
+        for proj in (["*"], ["s"], ["s", "pp"], ["v"]):
+            for dist in (None, "distinct", "reduced"):
+                for lim in (None, 2):
+                    q = {"form": "select", "proj": proj, "where": w}
+                    if dist:
+                        q[dist] = True
+                    if lim and dist != "reduced":
+                        q["limit"] = lim
+                    qs.append(q)
+        qs.append({"form": "select", "proj": ["a"], "where": grp({"t": "subselect", "q": {"form": "select", "proj": ["s"], "distinct": True, "where": w}}), "groupby": [], "aggs": [agg("count*")]})
+        qs.append({"form": "select", "proj": ["a"], "where": w, "groupby": [], "aggs": [agg("count", "s", True)]})
+    return qs
+
+
+def same_lex_queries():
+    qs = []
+    w = grp(bgp((V("s"), V("pp"), V("w"))))
+    for gb in ([], ["s"]):
+        for dist in (False, True):
+            for sep in (" ", ";", ""):
+                qs.append({"form": "select", "proj": gb + ["a"], "where": w, "groupby": [ev(x) for x in gb], "aggs": [agg("group_concat", "w", dist, sep=sep)]})
+            for f in ("count", "sample", "min", "max"):
+                qs.append({"form": "select", "proj": gb + ["a"], "where": w, "groupby": [ev(x) for x in gb], "aggs": [agg(f, "w", dist)]})
+    for dist in ("distinct", None):
+        q = {"form": "select", "proj": ["w"], "where": w}
+        if dist:
+            q[dist] = True
+        qs.append(q)
+    return qs
+
+
 def D(n, d=1):
     return {"k": "dec", "n": n, "d": d}
 
@@ -209,6 +253,13 @@ def run(out, tier, seed):
             if quick and (qi + di) % 2 != seed % 2:
                 continue
             jobs.append({"cfg": {"facade": "graph"}, "events": [data, {"op": "query", "q": q}]})
+    for di, d in enumerate(DATASETS[:3]):
+        data = {"op": "data", "quads": [t + ["D"] for t in d], "graphs": []}
+        for q in bnode_pattern_queries():
+            jobs.append({"cfg": {"facade": "graph"}, "events": [data, {"op": "query", "q": q}]})
+    data = {"op": "data", "quads": [t + ["D"] for t in SAME_LEX], "graphs": []}
+    for q in same_lex_queries():
+        jobs.append({"cfg": {"facade": "graph"}, "events": [data, {"op": "query", "q": q}]})
     for d in MIXED_DATA:
         for order in (0, 1):
             data = {"op": "data", "quads": [t + ["D"] for t in (d if order == 0 else list(reversed(d)))], "graphs": []}
